@@ -283,8 +283,10 @@ package jsonschema
 // a container is created only for a missing key without a default of its own.
 //@ contract (*state).applyDefaults(st, instancep, schema)
 //@   pure
+//@   requires new(st) && isold(st.rs) && wfRS(st.rs) && isold(schema) && inRS(st.rs, schema)
+//@   requires ptr: kind(instancep) == 22 && !rvisnil(instancep)
 //@   atcall[C15] "(reflect.Value).SetMapIndex" notrequired: !(has(schemaInfo.isRequired, prop) && schemaInfo.isRequired[prop])
-//@   atcall[C15] "(reflect.Value).SetMapIndex" where: $arg0 == instance && $arg1 == rvof(anyOf(prop, "string"))
+//@   atcall[C15] "(reflect.Value).SetMapIndex" where: $arg0 == instance && kind($arg1) == 24 && rvstr($arg1) == prop
 //@   atcall[C15] "(reflect.Value).SetMapIndex#1" missing1: kind(val) == 0 && !isnil(subschema.Default)
 //@   atcall[C15] "(reflect.Value).SetMapIndex#2" present2: kind(val) != 0
 //@   atcall[C15] "(reflect.Value).SetMapIndex#3" missing3: kind(val) == 0 && isnil(subschema.Default)
